@@ -14,7 +14,8 @@ that matches no pattern is a violation (this is how the `offer*exchange_rate - r
 found). T2 (fee split): the three fees are Fee::compute of pool_fees.{swap,protocol,burn}_fee applied to the same gross
 amount (the from_ratio product), all three are subtracted from that gross amount to give the proceeds, and each
 field of the returned SwapComputation carries the correspondingly named value. Exact price identity, there-and-back
-and the 128-bit range claims are numerical and are not decided here.
+and the 128-bit range claims are numerical and are not decided here. T3: see check_swap_wiring (funds validated before
+pricing in swap, per-asset pending-fee lookup, single consumer of the unreduced balance, one direction table).
 """
 ASSUMPTIONS = [
     "discharge reasons are arithmetic arguments over u128-ranged inputs confirmed by reading (listed in the rule table); "
@@ -84,8 +85,22 @@ def cp_arm_blocks(v):
     return cp - ss
 
 
+def check_swap_wiring(ctx, model):
+    """T3 (no free money, structural part): the executed swap and its simulation hand compute_swap the reserves the
+    property speaks of -- the native offer is validated against the attached coins before any balance is read, each
+    pending protocol fee is looked up for the asset whose balance it reduces, the unreduced balance has no other
+    consumer, and offer/ask reserves and decimals are selected by one direction table."""
+    from .poolvalue import check_v2_v3_pool, check_fee_lookup_same_asset, check_raw_balance_single_consumer
+    from .C14 import check_pair_directions
+    check_v2_v3_pool(ctx, model, "terraswap_pair", "C02-T3", fns=("swap",))
+    check_fee_lookup_same_asset(ctx, model, "terraswap_pair", "C02-T3")
+    check_raw_balance_single_consumer(ctx, model, "terraswap_pair", "C02-T3")
+    check_pair_directions(ctx, model, rule="C02-T3")
+
+
 def run(ctx):
     model = ctx.model()
+    check_swap_wiring(ctx, model)
     v = ctx.view(CS, "C02-T1")
     if v is None:
         return
